@@ -36,7 +36,7 @@ pub struct World {
 }
 
 impl World {
-    pub fn new(seed: u64, scenes: &[u64], nobj: usize, rotated: bool, spread: f32) -> World {
+    pub fn new(seed: u64, scenes: &[u64], nobj: usize, rotated: bool, spread: f32, fast: bool) -> World {
         let mut rng = StdRng::seed_from_u64(seed);
         let mut sc = vec![];
         for s in scenes {
@@ -48,7 +48,7 @@ impl World {
                 let (cx, cy) = (400.0, 400.0);
                 let x = cx + r * a.cos();
                 let y = cy + r * a.sin();
-                let speed = rng.gen_range(2.0..7.0);
+                let speed = if fast { rng.gen_range(8.0..28.0) } else { rng.gen_range(2.0..7.0) };
                 let tx = cx + rng.gen_range(-40.0..40.0);
                 let ty = cy + rng.gen_range(-40.0..40.0);
                 let d = ((tx - x).powi(2) + (ty - y).powi(2)).sqrt().max(1.0);
@@ -186,6 +186,10 @@ impl Recorder {
     }
 
     pub fn predict(&mut self, scene: u64, dets: &[Det]) {
+        if dets.is_empty() && self.drv.is_batch() {
+            // a batch request cannot express a scene without detections: no call, no event
+            return;
+        }
         let main = self.drv.content(false);
         let e = self.drv.epoch(scene) + 1;
         let mut w = vec![];
@@ -266,8 +270,8 @@ pub enum Call {
     SetAw(usize),
 }
 
-pub fn history(seed: u64, steps: usize, scenes: &[u64], nobj: usize, rotated: bool, lifecycle: bool, spread: f32, crafted: bool) -> Vec<Call> {
-    let mut world = World::new(seed, scenes, nobj, rotated, spread);
+pub fn history(seed: u64, steps: usize, scenes: &[u64], nobj: usize, rotated: bool, lifecycle: bool, spread: f32, crafted: bool, fast: bool) -> Vec<Call> {
+    let mut world = World::new(seed, scenes, nobj, rotated, spread, fast);
     let mut rng = StdRng::seed_from_u64(seed ^ 0x5eed);
     let mut calls = vec![];
     let mut crafted_k = 0usize;
@@ -369,7 +373,7 @@ pub fn main(opts: &Opts) {
     let steps = opts.usize("steps", 120);
     let scenes: Vec<u64> = opts.str("scenes", "0,7").split(',').map(|x| x.parse().unwrap()).collect();
     let nobj = opts.usize("objects", 3);
-    let calls = history(seed, steps, &scenes, nobj, opts.get("rotated").is_some(), opts.get("no-lifecycle").is_none(), opts.f64("spread", 160.0) as f32, opts.get("crafted").is_some());
+    let calls = history(seed, steps, &scenes, nobj, opts.get("rotated").is_some(), opts.get("no-lifecycle").is_none(), opts.f64("spread", 160.0) as f32, opts.get("crafted").is_some(), opts.get("jump").is_some());
     let only = opts.get("only-scene").map(|s| s.parse::<u64>().unwrap());
     let delay_ctl = if opts.u64("delay-us", 0) > 0 {
         let c = crate::gates::Ctl::install();
